@@ -131,6 +131,9 @@ Use [`Sender::send`] to push items onto the channel.
 Use [`tokio::spawn`] or [`sync::spawn`] to run the receiver-side of the channel.
 */
 pub fn bounded<T: Channel>(max_capacity: usize) -> (Sender<T>, Receiver<T>) {
+    #[cfg(emit_rs_emit_verif)]
+    use crate::verif::TrackedMutex as Mutex;
+
     let shared = Arc::new(Shared {
         metrics: Default::default(),
         state: Mutex::new(State {
@@ -660,7 +663,10 @@ impl Retry {
 
 struct Shared<T> {
     metrics: InternalMetrics,
+    #[cfg(not(emit_rs_emit_verif))]
     state: Mutex<State<T>>,
+    #[cfg(emit_rs_emit_verif)]
+    state: crate::verif::TrackedMutex<State<T>>,
 }
 
 /**
